@@ -182,4 +182,7 @@ def run(tier, seed, replay=None):
         # models over the same MIR semantics, theorems per sub-pass, output equality with the real pass
         from checks import c02_loop
         c02_loop.loops(ck, tier, seed)
+        # inlining (whole program) and scalar replacement: Gallina mirrors, preservation theorems, output equality with the real passes
+        from checks import c02_inl
+        c02_inl.inl(ck, tier, seed)
     return ck.finish()
